@@ -241,7 +241,9 @@ PROPS = {
                                 ("GcpVerif.Proofs.SyncOrder", "GcpVerif.Sync.c06_edges_present")], ["wall-clock bounds are observed by the harness watchdog (3 s per call), not proved"]),
     "C07": dict(pool_prop(["disabled_never_refreshes", "response_resets", "isResponse_iff", "stale_call_ignored", "refresh_trigger", "window_exponential", "window_monotone_or_saturated", "refresh_once"], ["window_exponential: k < 63 and unresponsive_detection_ms * 2^k <= MaxInt64 ms; beyond that the window saturates at MaxInt64 ns (window_monotone_or_saturated; K2 was the uint32 wrap, fixed in 6463af4)"]), theorems=pool_thms(["disabled_never_refreshes", "response_resets", "isResponse_iff", "stale_call_ignored", "refresh_trigger", "window_exponential", "window_monotone_or_saturated", "refresh_once"]) +
                 [("GcpVerif.Proofs.PoolRefresh", "GcpVerif.Pool." + n) for n in ["one_replacement_per_slot", "refr_run", "refresh_in_progress_noop", "swap_takes_over"]] +
-                [("GcpVerif.Proofs.PoolKeys", "GcpVerif.Pool.stable_swap")]),
+                [("GcpVerif.Proofs.PoolKeys", "GcpVerif.Pool.stable_swap")] +
+                [("GcpVerif.Proofs.PoolDetector", "GcpVerif.Pool." + n) for n in ["detector_quiet", "detector_done", "detector_done_unknown", "detector_scs", "refresh_det"]] +
+                [("GcpVerif.Proofs.PoolStages", "GcpVerif.Pool.lift_quiet")]),
     "C08": dict(pool_prop([]), theorems=pool_thms(["fallback_sticky", "fallback_new", "bound_ready_home", "lookup_preserves_binding"]) +
                 [("GcpVerif.Proofs.PoolKeys", "GcpVerif.Pool." + n) for n in ["fallback_key_in_pool", "keyed_run"]]),
     "C09": dict(pool_prop([], ["fairness: the n*k picks lie within the first 2^32 BIND picks (the uint32 cursor wraps after that; when n does not divide 2^32 the wrap breaks the cycle once: limitation K1, kernel-checked witness rr_unfair_at_wrap, not reachable through the API)", "pool composition unchanged during the window"]),
